@@ -101,11 +101,37 @@ def snapshot(s, m):
         return None
 
 
-def read_run(bp, s, readers, data):
+class BurstStream(io.RawIOBase):
+    """a pipe / socket-like reader over `data`: read(n) returns SHORT counts (never more than asked, sometimes fewer although
+    more data follows) at the chosen burst boundaries, as an unbuffered stream may; b"" only at the real end"""
+
+    def __init__(self, data, bounds):
+        self.data, self.pos, self.bounds = data, 0, sorted(set(bounds))
+
+    def readable(self):
+        return True
+
+    def read(self, n=-1):
+        if n is None or n < 0:
+            n = len(self.data) - self.pos
+        end = min(self.pos + n, len(self.data))
+        for b in self.bounds:
+            if self.pos < b < end:
+                end = b
+                break
+        out = self.data[self.pos:end]
+        self.pos = end
+        return out
+
+    def tell(self):
+        return self.pos
+
+
+def read_run(bp, s, readers, data, stream=None):
     """successive Cls().load(stream, SIZE_DELIMITED) over `data`. Returns (events, after) where events is the modelled part:
     list of ('ok', snapshot, remaining, obj) ended by at most one ('err', exc); `after` = outcomes ('ok'|'err') of the loads the
     implementation performs AFTER the first exception on the same stream object (not modelled)."""
-    st = io.BytesIO(data)
+    st = io.BytesIO(data) if stream is None else stream
     events, after = [], []
     failed = False
     for ci in readers:
@@ -142,12 +168,14 @@ class Case:
         self.label, self.si, self.s, self.written, self.frames, self.readers = label, si, s, written, frames, readers
         self.stream = b"".join(frames)
 
-    def describe(self, cut=None):
+    def describe(self, cut=None, bursts=None):
         d = {"label": self.label, "schema_spec": spec_of_schema(self.s), "readers": [self.s.classes[c].name for c in self.readers],
              "reader_indices": list(self.readers), "stream_hex": self.stream.hex(), "frames_hex": [f.hex() for f in self.frames],
              "written": [{"class": self.s.classes[ci].name, "repr": repr(m)[:600]} for ci, m, _p, _l in self.written]}
         if cut is not None:
             d["cut"] = cut
+        if bursts is not None:
+            d["bursts"] = list(bursts)
         return d
 
 
@@ -210,6 +238,27 @@ def check_case(ctx, bp, case, pairs, meta, exhaustive_budget, sampled_cuts):
             break
     if len(readers) == len(case.written) and len(events) == len(readers) and all(ev[0] == "ok" for ev in events) and events and events[-1][2] != 0:
         ctx.fail("oracle", "all frames read but the stream is not exhausted", input=case.describe())
+    # oracle 1b: the same bytes through a reader that returns SHORT counts part-way (pipe / socket): every load raises or returns
+    # exactly the message the plain run returns at that position - never one made of other bytes (seeded change C10-7: a retry
+    # loop after a short read that over-reads)
+    if len(stream) > 2 and full_snaps:
+        rb = ctx.rng
+        for _ in range(2):
+            bounds = rb.sample(range(1, len(stream)), min(len(stream) - 1, rb.choice([1, 2, 3, 5])))
+            try:
+                evs, _after = read_run(bp, s, readers, stream, stream=BurstStream(stream, bounds))
+            except Exception as e:  # noqa
+                ctx.fail("oracle", f"reading through a short-count stream crashed the harness: {e!r}", input=case.describe(bursts=bounds))
+                break
+            ctx.count("burst_stream_runs")
+            for i, ev in enumerate(evs):
+                if ev[0] != "ok":
+                    ctx.count("burst_stream_load_raised")
+                    break
+                if i >= len(full_snaps) or ev[1] != full_snaps[i]:
+                    ctx.fail("oracle", f"short-count stream (bursts at {bounds}): load #{i} returned a message different from the one the plain "
+                             "stream gives at that position", input=case.describe(bursts=bounds))
+                    break
     model = (f"(CL [cv_bytes_res (dump_stream sc{case.si} [{'; '.join(w[3] for w in case.written)}]); "
              f"CL (loads_trace sc{case.si} {nat_list(mi(c) for c in readers)} {lib.coq_bytes(stream)})])")
     expected = f"(CL [{cb(stream)}; CL {trace_cv(events)}])"
@@ -300,6 +349,25 @@ def gen_stream(ctx, bp, si, s, old_of, rng):
             ctx.count("unmodellable")
             continue
         if w[0] == "unencodable":
+            # a dump that raises must leave the stream as it was: the application that catches the error and goes on writing
+            # gets a stream of exactly the messages whose dump returned (seeded change C10-6: the length prefix written before
+            # the value error surfaces)
+            try:
+                st = io.BytesIO()
+                st.write(b"".join(frames))
+                pos = st.tell()
+                try:
+                    m.dump(st, bp.SIZE_DELIMITED)
+                except Exception:  # noqa
+                    pass
+                if st.tell() != pos or st.getvalue() != b"".join(frames):
+                    ctx.fail("oracle", f"dump(stream, SIZE_DELIMITED) of a message that cannot be encoded raised after writing "
+                             f"{st.tell() - pos} byte(s) ({st.getvalue()[pos:].hex()[:60]}) to the stream: every later frame is mis-framed",
+                             input={"schema_spec": spec_of_schema(s), "class": s.classes[ci].name, "repr": repr(m)[:600],
+                                    "stream_before_hex": b"".join(frames).hex()[:400]})
+                ctx.count("failed_dump_left_stream_untouched_checked")
+            except Exception as e:  # noqa
+                ctx.notes.append(f"failed-dump check crashed: {e!r}")
             ctx.count("unencodable_message_skipped")
             continue
         frame, payload, lit = w
@@ -478,6 +546,39 @@ def corpus_cases(ctx, bp, base_si):
 
 
 # --------------------------------------------------------------------------------------------------
+def failed_dump_witnesses(ctx, bp, s):
+    """messages that cannot be encoded, one per way of failing (float32 overflow, fixed-width range, varint range, lone surrogate),
+    dumped delimited after a good frame: the call must raise and the stream must hold exactly the good frame afterwards"""
+    names = {c.name: c for c in s.classes}
+    KP, KR = names["KPlain"].py, names["KRepeated"].py
+    fld = lambda c, pt, kind="scalar": [f.name for f in names[c].fields if f.elem.kind == kind and f.elem.pt == pt][0]  # noqa
+    good = io.BytesIO()
+    KP(**{fld("KPlain", "int32"): 5}).dump(good, bp.SIZE_DELIMITED)
+    good = good.getvalue()
+    bad = [("float32 overflow", KP(**{fld("KPlain", "float"): 1e39})),
+           ("fixed32 out of range", KP(**{fld("KPlain", "fixed32"): 2 ** 32})),
+           ("sfixed64 out of range", KP(**{fld("KPlain", "sfixed64"): 2 ** 63})),
+           ("varint below -2**63", KP(**{fld("KPlain", "int64"): -2 ** 63 - 1})),
+           ("lone surrogate", KP(**{fld("KPlain", "string"): "ab\ud800"})),
+           ("repeated fixed32 out of range, after good elements", KR(**{fld("KRepeated", "fixed32"): [1, 2, 2 ** 32]})),
+           ("second field fails after the first was encodable", KP(**{fld("KPlain", "int32"): 7, fld("KPlain", "float"): -1e39}))]
+    for what, m in bad:
+        st = io.BytesIO()
+        st.write(good)
+        raised = False
+        try:
+            m.dump(st, bp.SIZE_DELIMITED)
+        except Exception:  # noqa
+            raised = True
+        ctx.count("failed_dump_witnesses")
+        if not raised:
+            ctx.fail("oracle", f"dump(stream, SIZE_DELIMITED) of a message that cannot be encoded ({what}) returned", input={"what": what, "repr": repr(m)[:300]})
+        elif st.getvalue() != good:
+            ctx.fail("oracle", f"dump(stream, SIZE_DELIMITED) of a message that cannot be encoded ({what}) raised AFTER writing "
+                     f"{len(st.getvalue()) - len(good)} byte(s) ({st.getvalue()[len(good):].hex()[:60]}): the stream no longer is a sequence of frames",
+                     input={"what": what, "repr": repr(m)[:300], "stream_before_hex": good.hex()})
+
+
 def run(ctx):
     import betterproto as bp
     rng = ctx.rng
@@ -488,6 +589,7 @@ def run(ctx):
         schemas.append(s)
         olds.append(old_of)
     pairs, meta = [], []
+    failed_dump_witnesses(ctx, bp, schemas[0])
     budget = 220 if not thorough else 600
     n_streams = 22 if not thorough else 70
     cases = []
